@@ -827,6 +827,7 @@ inductive ReadResult where
   | raised (e : Exc)
   | elem (v : Val)
   | array (shape : List Nat) (data : List Val)
+  | other                        -- some object that is not a series (an instance attribute, a property, the span, …)
   deriving DecidableEq, Repr, Inhabited
 
 def gather (data : List Val) (idxs : List Nat) : List Val := idxs.map (pick data)
@@ -841,6 +842,14 @@ def getItem (s : Store) (name : Name) : ReadResult :=
   match s.get name with
   | none => .raised .key
   | some ser => .array ser.shape ser.data
+
+/-- `obj.name`: ordinary attribute lookup comes first — an instance attribute or class property recorded in
+    `_attributes` wins; `__getattr__` (the variable) is only consulted when that fails. -/
+def getAttr (s : Store) (name : Name) : ReadResult :=
+  if s.attrs.contains name then .other
+  else match s.get name with
+    | none => .raised (.attribute none)
+    | some ser => .array ser.shape ser.data
 
 /-- `obj[name][i]` -/
 def getPos (s : Store) (name : Name) (i : Int) : ReadResult :=
